@@ -101,6 +101,10 @@ pub enum Ph {
     NOrder { y: Ch, w: Ch },
     #[strum(to_string = "<{y:^5}>{{{w:.0}}}")]
     NSpec { y: Ch, w: Ch },
+    #[strum(to_string = "text {b}")]
+    NTrailing { a: Ch, b: Ch },
+    #[strum(to_string = "{c:>4}|{a}")]
+    NGap { a: Ch, b: Ch, c: Ch },
     #[strum(to_string = "{x:03}/{y:+}/{z:#x}")]
     NInt { x: u16, y: i64, z: u64 },
     #[strum(to_string = "{0:>8}|{1}")]
@@ -134,6 +138,8 @@ PH = [
     ("n", False, "let (y, w) = (Ch(nd_u8()), Ch(nd_u8()));", "Ph::N { y, w, unused: nd_u8() }", "y = y, w = w", "x{y}z{{}}{w}", True),
     ("norder", False, "let (y, w) = (Ch(nd_u8()), Ch(nd_u8()));", "Ph::NOrder { y, w }", "y = y, w = w", "{w}{y}{w}", True),
     ("nspec", False, "let (y, w) = (Ch(nd_u8()), Ch(nd_u8()));", "Ph::NSpec { y, w }", "y = y, w = w", "<{y:^5}>{{{w:.0}}}", True),
+    ("ntrailing", False, "let (fa, fb) = (Ch(nd_u8()), Ch(nd_u8()));", "Ph::NTrailing { a: fa, b: fb }", "b = fb", "text {b}", True),
+    ("ngap", False, "let (fa, fb, fc) = (Ch(nd_u8()), Ch(nd_u8()), Ch(nd_u8()));", "Ph::NGap { a: fa, b: fb, c: fc }", "a = fa, c = fc", "{c:>4}|{a}", True),
     ("nint_extreme", False, "let (x, y, z) = (65535u16, i64::MIN, u64::MAX);", "Ph::NInt { x, y, z }", "x = x, y = y, z = z", "{x:03}/{y:+}/{z:#x}", False),
     ("nint_small", False, "let (x, y, z) = (7u16, 0i64, 0u64);", "Ph::NInt { x, y, z }", "x = x, y = y, z = z", "{x:03}/{y:+}/{z:#x}", False),
     ("tint_extreme", True, "let (x, y) = (i64::MIN, u64::MAX);", "Ph::TInt(x, y)", "x, y", "{0:>8}|{1}", False),
